@@ -86,6 +86,11 @@ def gen_doc(rnd, thorough):
             prods.append([s, rnd.choice([1, 1, 2, 3])])
         if not reac and not prods:
             prods = [[rnd.choice(rx_species), 1]]
+        # the same species referenced twice in one list (two <speciesReference> elements): the effective stoichiometry is the sum
+        if reac and rnd.random() < 0.2:
+            reac.append([rnd.choice(reac)[0], rnd.choice([1, 1, 2])])
+        if prods and rnd.random() < 0.2:
+            prods.append([rnd.choice(prods)[0], rnd.choice([1, 1, 2])])
         others = [s for s in ids if s not in [x[0] for x in reac] and s not in [x[0] for x in prods]]
         mods = rnd.sample(others, min(len(others), rnd.choice([0, 0, 1, 2])))
         locs = {}
@@ -286,6 +291,8 @@ def run_case(doc):
                 seen_local.add(lid)
         if coll:
             C["colliding_local_documents"] += 1
+        if any(len(set(x[0] for x in r_[side])) < len(r_[side]) for r_ in doc["reactions"] for side in ("reactants", "products")):
+            C["documents_with_duplicate_species_references"] += 1
         if n_rr:
             C["rate_rule_documents"] += 1
         if n_as:
